@@ -1963,6 +1963,19 @@ pub fn c10_hostile(seed: u64) -> Scenario {
         let after = if eager { 0 } else { r.range(30, 120) };
         steps.push(AttackStep { at_ms: own.as_ref().unwrap().at_ms + after, src: Src::Own, kind: Kind::ValidData { len: 8 + r.below(200) as usize } });
     }
+    // while the target's own connect to its peer is waiting for the SYN-ACK, a SYN arrives from
+    // the peer's address whose id is one below the connect's: the connection it asks for would
+    // be received on the connect's id. (The target must treat it as a clash and go on serving.)
+    if connects[0].node == 0 && r.chance(0.5) {
+        let lat_ms = 20;
+        for _ in 0..r.range(1, 3) {
+            steps.push(AttackStep {
+                at_ms: connects[0].at_ms + r.range(0, 2 * lat_ms + 1),
+                src: Src::Spoof(1),
+                kind: Kind::Header { typ: 4, ver: 1, cid: CidSel::Victim(-1), seq: NumSel::Abs(r.next() as u16), ack: NumSel::Abs(0), wnd: 0, ext: ExtSpec::None, payload: 0, truncate_to: None },
+            });
+        }
+    }
     let attack = AttackScript { seed: r.next(), idx: 2, target: 0, own, steps };
     let mut accepts = vec![];
     let mk_acc = |r: &mut Rng, node: usize, at_ms: u64| {
